@@ -18,12 +18,15 @@
       C01_num_days  : num_days_from_ce d = the specification's day number of d, within
                       [DN_MIN, DN_MAX], for every valid d;
       C01_days_back : from_num_days_from_ce_opt (day number of d) = Some d for every valid d.
+    The [C02_holds_*] theorems use one more C01 fact, [C01_fields] (Proofs/C02Holds.v): for a valid d,
+    (d_year d, d_ordinal d) is a valid (year, ordinal) pair in range and from_yo_opt rebuilds d from it.
     They are hypotheses of a Section, not axioms: Print Assumptions stays closed, and the theorems
     become unconditional by applying them to the C01 proofs. *)
-From Coq Require Import ZArith List Bool.
+From Coq Require Import String ZArith List Bool.
 From V Require Import Base.Int Base.IO Spec.Gregorian Gen.DateTimeConsts Gen.TsConsts Gen.TimeDelta.
 From V Require Model.Date Model.Time.
-From V Require Import Model.DateTime Model.C02 Proofs.C02.
+From V Require Judge.C02.
+From V Require Import Model.DateTime Model.C02 Proofs.C02 Proofs.C02Holds.
 Import ListNotations.
 Open Scope Z_scope.
 
@@ -119,6 +122,23 @@ Theorem C02_timestamp_nanos_opt_spec_modulo_date : date_facts ->
   dt_timestamp_nanos_opt a = Val (if in_i64 (instant a) then Some (instant a) else None).
 Proof. exact timestamp_nanos_opt_spec. Qed.
 Print Assumptions C02_timestamp_nanos_opt_spec_modulo_date.
+(* the same on the leap-second values from_timestamp can produce (second 59), reading the count as
+   timestamp * 10^9 + subsec_nanos like timestamp_millis / _micros do *)
+Theorem C02_timestamp_nanos_opt_leap59_modulo_date : date_facts ->
+  forall a, valid_ndt a -> dsecs a mod 60 = 59 ->
+  dt_timestamp_nanos_opt a = Val (if in_i64 (instant a) then Some (instant a) else None).
+Proof. exact timestamp_nanos_opt_leap59. Qed.
+Print Assumptions C02_timestamp_nanos_opt_leap59_modulo_date.
+(* observation (outside the property's domain): a leap-second fraction on a second other than 59 --
+   reachable through with_second/with_nanosecond only -- just below the i64 window reports None although
+   timestamp * 10^9 + subsec_nanos fits: 1677-09-21T00:12:42 + 1_999_999_999 ns *)
+Theorem C02_timestamp_nanos_opt_leap_gap_observation :
+  let a := mk_ndt 13742219 (Time.mk_time 762 1999999999) in
+  Date.from_yo_opt 1677 264 = Val (Some 13742219) /\ dt_timestamp a = Val (-9223372038) /\
+  in_i64 (-9223372038 * G + 1999999999) = true /\ dt_timestamp_nanos_opt a = Val None /\
+  dt_timestamp_micros a = Val (-9223372036000001).
+Proof. exact nanos_opt_leap_gap. Qed.
+Print Assumptions C02_timestamp_nanos_opt_leap_gap_observation.
 Theorem C02_timestamp_nanos_spec_modulo_date : date_facts ->
   forall a, valid_ndt a -> nonleap a ->
   dt_timestamp_nanos a = if in_i64 (instant a) then Val (instant a) else Panic.
@@ -243,6 +263,32 @@ Theorem C02_duration_since_epoch : forall s n, 0 <= n < G ->
   0 <= ds /\ 0 <= dn < G /\ sys_ns b ds dn = s * G + n /\ (b = true -> 0 < ds * G + dn).
 Proof. exact st_since_epoch_spec. Qed.
 Print Assumptions C02_duration_since_epoch.
+
+(** * The executable property (Judge/C02.v, the oracle applied to the implementation's outputs)
+      accepts the model's output on every in-domain case of the constructor and accessor operations.
+      [C01_fields]: year/ordinal of a valid date are a valid pair in range and rebuild the date (C01). *)
+Theorem C02_holds_from_modulo_date : date_facts -> C01_fields ->
+  forall secs nsecs, in_i64 secs = true -> in_u32 nsecs = true ->
+  Judge.C02.judge B"ts.from" [VInt secs; VInt nsecs] (run B"ts.from" [VInt secs; VInt nsecs]) = JOk.
+Proof. exact holds_from. Qed.
+Print Assumptions C02_holds_from_modulo_date.
+Theorem C02_holds_fromms_modulo_date : date_facts -> C01_fields ->
+  forall x, in_i64 x = true -> Judge.C02.judge B"ts.fromms" [VInt x] (run B"ts.fromms" [VInt x]) = JOk.
+Proof. exact holds_fromms. Qed.
+Print Assumptions C02_holds_fromms_modulo_date.
+Theorem C02_holds_fromus_modulo_date : date_facts -> C01_fields ->
+  forall x, in_i64 x = true -> Judge.C02.judge B"ts.fromus" [VInt x] (run B"ts.fromus" [VInt x]) = JOk.
+Proof. exact holds_fromus. Qed.
+Print Assumptions C02_holds_fromus_modulo_date.
+Theorem C02_holds_fromns_modulo_date : date_facts -> C01_fields ->
+  forall x, in_i64 x = true -> Judge.C02.judge B"ts.fromns" [VInt x] (run B"ts.fromns" [VInt x]) = JOk.
+Proof. exact holds_fromns. Qed.
+Print Assumptions C02_holds_fromns_modulo_date.
+Theorem C02_holds_of_modulo_date : date_facts -> C01_fields ->
+  forall a, valid_ndt a -> nonleap a ->
+  Judge.C02.judge B"ts.of" [enc_ndt a] (run B"ts.of" [enc_ndt a]) = JOk.
+Proof. exact holds_of. Qed.
+Print Assumptions C02_holds_of_modulo_date.
 
 (** * The hypotheses are inhabited by a non-trivial value, independently of the C01 facts *)
 Example C02_example_2015 : exists a, dt_from_timestamp 1431648000 0 = Val (Some a) /\
